@@ -10,7 +10,7 @@
 (*     [dims |-> Seq(name), shape |-> Seq(Nat), data |-> Seq(value)]       *)
 (* with data in C (row-major) order of dims.                               *)
 (***************************************************************************)
-EXTENDS Naturals, Integers, Sequences, FiniteSets, SequencesExt, FiniteSetsExt, Functions
+EXTENDS Naturals, Integers, Sequences, FiniteSets, SequencesExt, FiniteSetsExt, Functions, TLC
 
 \* ---------------------------------------------------------------- helpers
 RECURSIVE ProdSeq(_)
@@ -90,6 +90,14 @@ FindUnused(prefix, dims) ==
   ELSE <<prefix, CHOOSE k \in 0..Cardinality(dims) :
              /\ <<prefix, k>> \notin dims
              /\ \A m \in 0..(k - 1) : <<prefix, m>> \in dims>>
+
+\* the same with string names, as the implementation spells them
+FindUnusedStr(prefix, dims) ==
+  IF prefix \notin dims THEN prefix
+  ELSE LET k == CHOOSE k \in 0..Cardinality(dims) :
+                  /\ (prefix \o "_" \o ToString(k)) \notin dims
+                  /\ \A m \in 0..(k - 1) : (prefix \o "_" \o ToString(m)) \in dims
+       IN prefix \o "_" \o ToString(k)
 
 \* utils.ravel_dimensions: move the grid dims to the end, flatten them into
 \* one dimension called `name`.
